@@ -223,7 +223,7 @@ def _compare(got, exp_sents, sids, what):
 def exportfile(m, n, v4, lay, hdr, sidsel, cont, wsel, gz, **kw):
     stubs.install()
     s1 = _first(m, n, kw, wsel)
-    sid1 = [1, 7, 12345][sidsel]
+    sid1 = [0, 7, 12345][sidsel]
     sents = [(sid1, s1), (sid1 + 5, S2)]
     text = enc_export(sents, v4=v4, sep=["\t", "\t\t", "  "][lay], header=hdr, comments=hdr, secedge=(lay == 1), bosextra=hdr)
     name = "c.export.gz" if gz else "c.export"
